@@ -1,7 +1,11 @@
 let parse_chunks s = if s = "." then [] else List.map parse_bytes (String.split_on_char ',' s)
 let parse_sched s =
   if s = "." then [] else
-  List.map (fun t -> if t = "F" then Fail else Accept (nat_of_int (int_of_string t))) (String.split_on_char ',' s)
+  List.concat_map (fun t ->
+    if t = "F" then [Fail] else
+    match String.split_on_char '*' t with
+    | [k; n] -> List.init (int_of_string n) (fun _ -> Accept (nat_of_int (int_of_string k)))
+    | _ -> [Accept (nat_of_int (int_of_string t))]) (String.split_on_char ',' s)
 
 let payload_str p = match p with
   | Raw b -> "raw:" ^ summ b
